@@ -7,6 +7,7 @@ import (
 	"encoding/hex"
 	"fmt"
 	"io"
+	"os"
 	"strings"
 	"sync"
 	"sync/atomic"
@@ -146,10 +147,15 @@ type rbGuard struct {
 	prewrote  map[uint64]map[string]uint64 // start -> key -> region id of the successful prewrite
 	rejected  int
 	cneNormalised int // prewrite answers of CheckNotExists-only batches whose min-commit ts was normalised (U6)
+	// apply: [guard check, store call, guard bookkeeping, U6 normalisation, `deliver` log line] of one request is one critical
+	// section for all gates of the scenario, so the log order of deliveries IS the order in which the store applied them and
+	// no rollback effect can slip in between the guard's check and the prewrite it let through. Off with VERIF_GATE_SERIAL=0.
+	apply  sync.Mutex
+	serial bool
 }
 
 func newGuard() *rbGuard {
-	return &rbGuard{rolled: map[string]bool{}, prewrote: map[uint64]map[string]uint64{}}
+	return &rbGuard{rolled: map[string]bool{}, prewrote: map[uint64]map[string]uint64{}, serial: os.Getenv("VERIF_GATE_SERIAL") != "0"}
 }
 func gk(start uint64, k []byte) string { return fmt.Sprintf("%d|%x", start, k) }
 
@@ -490,29 +496,38 @@ func (g *gate) SendRequest(ctx context.Context, addr string, req *tikvrpc.Reques
 	g.inflight.Add(1)
 	var resp *tikvrpc.Response
 	var err error
-	if g.guard != nil {
-		resp = g.guard.reject(req)
-	}
-	if resp == nil {
-		// decided before delivery: unistore rewrites the request in place (min-commit ts, flags)
-		cneOnly, wantMin := checkNotExistsOnly(req), uint64(0)
-		if cneOnly {
-			wantMin = req.Prewrite().MinCommitTs
-			if s := req.Prewrite().StartVersion + 1; wantMin < s {
-				wantMin = s
+	var rf map[string]interface{}
+	func() {
+		// a pessimistic lock request may wait inside the store for another transaction's request: it stays outside the
+		// critical section (a gate waiting for the section is counted in `inflight`, see above)
+		if g.guard != nil && g.guard.serial && req.Type != tikvrpc.CmdPessimisticLock {
+			g.guard.apply.Lock()
+			defer g.guard.apply.Unlock()
+		}
+		if g.guard != nil {
+			resp = g.guard.reject(req)
+		}
+		if resp == nil {
+			// decided before delivery: unistore rewrites the request in place (min-commit ts, flags)
+			cneOnly, wantMin := checkNotExistsOnly(req), uint64(0)
+			if cneOnly {
+				wantMin = req.Prewrite().MinCommitTs
+				if s := req.Prewrite().StartVersion + 1; wantMin < s {
+					wantMin = s
+				}
+			}
+			resp, err = g.inner.SendRequest(ctx, addr, req, timeout)
+			g.noteServed(req, f)
+			if g.guard != nil {
+				g.guard.observe(req, resp, err)
+			}
+			if cneOnly {
+				normaliseCheckNotExistsMinCommit(req, resp, wantMin, g.guard)
 			}
 		}
-		resp, err = g.inner.SendRequest(ctx, addr, req, timeout)
-		g.noteServed(req, f)
-		if g.guard != nil {
-			g.guard.observe(req, resp, err)
-		}
-		if cneOnly {
-			normaliseCheckNotExistsMinCommit(req, resp, wantMin, g.guard)
-		}
-	}
-	rf := respFields(req, resp, err)
-	g.trace.add(Event{Kind: "deliver", Client: g.id, ReqID: id, Cmd: req.Type.String(), F: rf})
+		rf = respFields(req, resp, err)
+		g.trace.add(Event{Kind: "deliver", Client: g.id, ReqID: id, Cmd: req.Type.String(), F: rf})
+	}()
 	// one-shot hook armed by a helper: runs once after the next request of that command type was answered by the store,
 	// before this client sees the answer (e.g. "the clock jumps while the status check is on its way back")
 	g.osMu.Lock()
